@@ -311,7 +311,7 @@ fn main() {
         }
     }
     rep.count_n("corpus_responses", n_corpus);
-    let mut rng = Rng::new(args.seed);
+    let mut rng = Rng::new(args.seed.wrapping_mul(0xD1B5_4A32_D192_ED03));
     if args.replay.is_none() {
         // exhaustive: every prefix x write x tail, and every standalone statement, under every wrapping
         let mut stmts: Vec<String> = vec![];
